@@ -1,6 +1,6 @@
 #!/usr/bin/env python3
 """seedall.py <prop> <outdir> <label> [check-prop ...]: for every numbered change under outdir: confirm it
-(confirm_seed.py, stored as seeded/<prop>-<label><k>), apply it to /repo, run the quick check(s), undo,
+(confirm_seed.py, stored as seeded/<prop>-<label><k>), apply it in a scratch worktree (VERIF_REPO), run the quick check(s),
 and record whether it was detected in meta.json."""
 import sys, os, subprocess, json, re
 prop, outdir, label = sys.argv[1], sys.argv[2].rstrip("/"), sys.argv[3]
@@ -15,18 +15,20 @@ for k in sorted(d for d in os.listdir(outdir) if d.isdigit()):
     confirmed = "\nCONFIRMED" in "\n" + out
     print("%s-%s: %s" % (prop, sid, "CONFIRMED" if confirmed else "NOT CONFIRMED\n" + out[-600:]))
     res = []
-    if subprocess.call(["git", "-C", "/repo", "apply", os.path.join(src, "patch.diff")]) != 0:
-        print("  patch does not apply"); continue
+    wt = "/tmp/alt-%s-%s-%d" % (prop, sid, os.getpid())
+    subprocess.call(["git", "-C", "/repo", "worktree", "add", "--detach", wt, "HEAD"], stdout=subprocess.DEVNULL, stderr=subprocess.DEVNULL)
     try:
+        if subprocess.call(["git", "-C", wt, "apply", os.path.join(src, "patch.diff")]) != 0:
+            print("  patch does not apply"); continue
         for c in checks:
-            p = subprocess.run([os.path.join(ROOT, "check"), c], cwd=ROOT, stdout=subprocess.PIPE, stderr=subprocess.STDOUT)
+            p = subprocess.run([os.path.join(ROOT, "check"), c], cwd=ROOT, stdout=subprocess.PIPE, stderr=subprocess.STDOUT,
+                               env=dict(os.environ, VERIF_REPO=wt))
             lines = p.stdout.decode().strip().split("\n")
             v = [l for l in lines if l.startswith("VIOLATION")]
             res.append((c, p.returncode, (v[0] if v else ""), lines[-1]))
             print("  check %s: exit %d %s | %s" % (c, p.returncode, (v[0][:110] if v else ""), lines[-1][-100:]))
     finally:
-        subprocess.call(["git", "-C", "/repo", "checkout", "--", "."])
-        subprocess.call(["git", "-C", "/repo", "clean", "-fdq"])
+        subprocess.call(["git", "-C", "/repo", "worktree", "remove", "--force", wt])
     mp = os.path.join(ROOT, "seeded", "%s-%s" % (prop, sid), "meta.json")
     if os.path.exists(mp):
         m = json.load(open(mp))
@@ -41,3 +43,5 @@ for k in sorted(d for d in os.listdir(outdir) if d.isdigit()):
         else:
             m["detected_by"] = "MISSED by quick: " + ", ".join(c for c, _, _, _ in res)
         json.dump(m, open(mp, "w"), indent=1)
+    import hashlib, shutil
+    shutil.rmtree(os.path.join(ROOT, "work", "alt-" + hashlib.sha1(wt.encode()).hexdigest()[:10]), ignore_errors=True)
